@@ -11,7 +11,19 @@ import importlib
 from ..report import Report
 
 PREMISES = {
+    "C02": [
+        ("C06", ["C06.a", "C06.b"], "booked stake <= delegated stake after a slashing check: the pools are only ever lowered to the delegated sum, and the two new pools "
+                                     "add up to exactly that sum (the stSei pool is the complement of the re-scaled bSei pool, no remainder lost)"),
+    ],
+    "C03": [
+        ("C06", ["C06.f"], "mints / redeems are priced at the rate consistent with the totals observable at that moment: the handlers work on the recomputed State "
+                            "returned by the resync, not on the stored copy"),
+        ("C02", ["C02.c"], "a batch of unbond requests is undelegated for floor(requests x rate) per token: the amount handed to the planner is the sum of exactly the two "
+                            "floored products taken off the pools"),
+        ("C08", ["C08.g"], "the rate's denominator counts the not-yet-undelegated requests: a roll-over must not leave the closed batch's requests pending"),
+    ],
     "C04": [
+        ("C08", ["C08.g"], "requests of a closed batch left pending stay in the rate's denominator and are undelegated twice: the rate drops without slashing"),
         ("C03", ["C03.a", "C03.b", "C03.c"], "a rate can only be shown not to fall if it is pool / (supply + requests) of the same token, recomputed over the supply as "
                                                "changed by exactly this operation's mints and burns, and if no more than floor(value / rate) tokens are minted for a value"),
         ("C02", ["C02.a", "C02.c", "C02.g"], "the pool of a token must grow by the whole payment (bond), shrink by exactly the undelegated products (unbond) and a "
@@ -22,6 +34,7 @@ PREMISES = {
                                                "sum and the release), per token type, measured on the coins that actually arrived"),
     ],
     "C07": [
+        ("C08", ["C08.g"], "for every batch the recorded claims equal the total that is undelegated once: the roll-over's reset of both request totals is what the handler saves"),
         ("C01", ["C01.a", "C01.b"], "claims are removed only by their owner's successful withdrawal of a released batch: the payable sum and the removal list cover "
                                      "the same released entries of info.sender"),
     ],
